@@ -151,6 +151,34 @@ def check_index_maps(ctx, hz):
         if got != lookup[(n, m)]:
             ctx.violation('noll-inverse', 'zernike_to_noll(%d,%d) = %r, expected %d' % (n, m, got, lookup[(n, m)]), {'what': 'tonoll', 'n': n, 'm': m})
     ctx.count('index:zernike_to_noll', len(pairs) + len(sample_big))
+
+    # ---- pairs that are no Zernike indices (|m| > n or n - |m| odd): the search must fail with the documented ValueError
+    # (theorem `zernikeToNoll_none_iff`: the model's search returns none exactly for these)
+    invalid = [(n, m) for n in range(0, 13) for m in range(-n - 3, n + 4) if abs(m) > n or (n - abs(m)) % 2]
+    for n in [int(x) for x in ctx.rng.integers(13, 80, size=ctx.scale(12, 60))]:
+        invalid += [(n, n + 1), (n, -n - 2), (n, (n + 1) % 2), (n, -(n - 1)), (n, int(ctx.rng.integers(-n - 5, n + 6)) // 2 * 2 + (n + 1) % 2)]
+    real_invalid = {}
+    for (n, m) in invalid:
+        try:
+            got = hz.zernike_to_noll(n, m)
+            real_invalid[(n, m)] = repr(got)
+            ctx.violation('noll-invalid-pair', 'zernike_to_noll(%d,%d) = %r although (%d,%d) is not a valid pair of Zernike indices' % (n, m, got, n, m),
+                          {'what': 'tonoll-invalid', 'n': n, 'm': m})
+        except ValueError as e:
+            real_invalid[(n, m)] = 'raises'
+            ctx.count('index:zernike_to_noll-invalid:ValueError')
+        except Exception as e:      # noqa
+            real_invalid[(n, m)] = 'raises'
+            ctx.count('index:zernike_to_noll-invalid:' + type(e).__name__)
+            ctx.violation('noll-invalid-error-type', 'zernike_to_noll(%d,%d) raises %s: %s  instead of the ValueError "Could not find noll index" of the code' % (
+                n, m, type(e).__name__, e), {'what': 'tonoll-invalid', 'n': n, 'm': m})
+    out = ctx.model(['C13 tonoll1 %d %d' % nm for nm in invalid])
+    for nm, line in zip(invalid, out):
+        ctx.traces_validated += 1
+        mdl = 'raises' if line == 'err value' else line
+        if mdl != 'raises' or real_invalid[nm] != 'raises':
+            ctx.disagree('C13 tonoll1', {'n': nm[0], 'm': nm[1], 'impl': real_invalid[nm], 'model': line})
+    ctx.count('index:zernike_to_noll-invalid', len(invalid))
     ctx.case({'zernike_to_noll': 'all pairs n<=%d, %d sampled pairs up to n=%d' % (n_small, len(sample_big), n_big)}, ('index-tonoll', n_small))
 
     # ---- correspondence with the model (T3: exhaustive on the same range)
@@ -1491,6 +1519,15 @@ def replay(ctx, case):
         got = call_index(hz.zernike_to_noll, case['n'], case['m'])
         ok = isinstance(got, int) and call_index(hz.noll_to_zernike, got) == (case['n'], case['m'])
         print('  zernike_to_noll(%d,%d) = %r' % (case['n'], case['m'], got))
+    elif what == 'tonoll-invalid':
+        try:
+            got = hz.zernike_to_noll(case['n'], case['m']); ok = False
+            print('  zernike_to_noll(%d,%d) = %r' % (case['n'], case['m'], got))
+        except ValueError as e:
+            print('  zernike_to_noll(%d,%d) raises ValueError: %s' % (case['n'], case['m'], e))
+        except Exception as e:      # noqa
+            ok = False
+            print('  zernike_to_noll(%d,%d) raises %s: %s' % (case['n'], case['m'], type(e).__name__, e))
     elif what == 'noll-injective':
         seen = set(hz.noll_to_zernike(i) for i in range(1, case['N'] + 1))
         ok = len(seen) == case['N']
